@@ -31,12 +31,13 @@ def generate(T, tier):
     hs = []
     for mod, sb in (("gps1059", 6), ("glo1065", 5)):
         num = mod[3:]
-        for inst, t in (("sat0", "quick"), ("sat1", "thorough"), ("sat_mid", "thorough"), ("sat_max", "quick"), ("sat_over", "quick"), ("sat_255", "thorough")):
+        for inst, t in (("sat0", "thorough"), ("sat1", "thorough"), ("sat_mid", "thorough"), ("sat_max", "thorough"), ("sat_over", "thorough"), ("sat_255", "thorough")):
             if num == "1065" and inst != "sat_max":
                 t = "thorough"
             hs.append({"name": "c16::%s::one_%s" % (mod, inst), "group": "main", "tier": t,
-                       "bounds": "%s: one entry on a concrete satellite id (%s), every recognised signal, every f32 bias bit pattern" % (num, inst)})
-        hs.append({"name": "c16::%s::pattern" % mod, "group": "main", "tier": "quick" if num == "1059" else "thorough", "bounds": "%s: all 2^14 bias patterns decode and re-encode to themselves" % num})
+                       "bounds": "%s: one entry on a concrete satellite id (%s), first/last recognised signal, every f32 bias bit pattern" % (num, inst)})
+        hs.append({"name": "c16::%s::pattern" % mod, "group": "main", "tier": "thorough", "bounds": "%s: all 2^14 bias patterns decode and re-encode to themselves" % num})
+        hs.append({"name": "c16::%s::most_satellites" % mod, "group": "wide", "tier": "quick" if num == "1059" else "thorough", "bounds": "%s: one entry on each satellite 0..=max-1: encodes, and all entries (satellite 0 included) come back" % num})
         hs.append({"name": "c16::%s::all_satellites" % mod, "group": "wide", "tier": "quick" if num == "1059" else "thorough", "bounds": "%s: one entry on every satellite id of the range (count-field boundary): Err or all entries come back" % num})
         sig_id = T.ssr[num][0][0]
         nsat = 13
@@ -66,9 +67,10 @@ pub fn capacity_%(num)s() {
         hs.append({"name": "c16::capacity_%s" % num, "group": "cap", "tier": "quick" if num == "1059" else "thorough",
                    "bounds": "%s decode of a %d-byte payload announcing %d entries (capacity 390), bias bits symbolic: no panic, never more than 390 entries" % (num, n, nsat * 31)})
     for g in ("g1059_737", "g1059_377", "g1059_773", "g1059_555", "g1059_desc", "g1059_adj", "g1065_737", "g1065_377", "g1065_desc", "g1065_555"):
-        hs.append({"name": "c16::%s" % g, "group": "main", "tier": "quick" if g in ("g1059_737",) else "thorough",
-                   "bounds": "three entries on satellites %s, symbolic distinct recognised signals, symbolic grid biases: decoded == stable regrouping by ascending satellite" % g.split("_")[1]})
-    hs.append({"name": "c16::ssr_tables", "group": "main", "tier": "quick", "bounds": "1059 signal table through the codec: every (u8 band, char attribute)"})
+        hs.append({"name": "c16::%s" % g, "group": "main", "tier": "thorough",
+                   "bounds": "three entries on satellites %s, three distinct concrete signals, symbolic grid biases: decoded == stable regrouping by ascending satellite" % g.split("_")[1]})
+    hs.append({"name": "c16::ssr_table_known", "group": "main", "tier": "thorough", "bounds": "1059: each of the 12 reference signals is written with its reference number"})
+    hs.append({"name": "c16::ssr_table_unknown", "group": "main", "tier": "thorough", "bounds": "1059: every (u8 band, char attribute) outside the reference table is neither written nor counted"})
     for inst, t in (("empty", "quick"), ("3210", "quick"), ("0123", "thorough"), ("2031", "thorough"), ("30", "thorough"), ("1", "thorough")):
         hs.append({"name": "c16::glo_1230_%s" % inst, "group": "main", "tier": t, "bounds": "1230: entries for signals in caller order %s (distinct, recognised), symbolic 16-bit grid biases" % inst})
     hs.append({"name": "c16::glo_1230_unknown", "group": "main", "tier": "quick", "bounds": "1230: any descriptor: accepted iff recognised"})
